@@ -254,8 +254,6 @@ pub trait RwsStr {
             self.sview().len() == 0 ==> r.is_none();
     fn rws_matches_count(&self, p: &str) -> (r: usize)
         ensures p@.len() == 1 ==> r == count_char(self.sview(), p@[0]);
-    fn rws_len(&self) -> (r: usize)
-        ensures r == utf8_len(self.sview());
 }
 
 pub open spec fn count_char(s: Seq<char>, c: char) -> nat
@@ -274,8 +272,6 @@ impl RwsStr for str {
     fn rws_chars_last(&self) -> Option<char> { self.chars().last() }
     #[verifier::external_body]
     fn rws_matches_count(&self, p: &str) -> usize { self.matches(p).count() }
-    #[verifier::external_body]
-    fn rws_len(&self) -> usize { self.len() }
 }
 impl RwsStr for String {
     open spec fn sview(&self) -> Seq<char> { self@ }
@@ -287,7 +283,30 @@ impl RwsStr for String {
     fn rws_chars_last(&self) -> Option<char> { self.chars().last() }
     #[verifier::external_body]
     fn rws_matches_count(&self, p: &str) -> usize { self.matches(p).count() }
+}
+
+// .len(): bytes for str/String (UTF-8 length), elements for Vec/slice/array (these three are verified, not assumed)
+pub trait RwsLen {
+    spec fn len_spec(&self) -> nat;
+    fn rws_len(&self) -> (r: usize)
+        ensures r == self.len_spec();
+}
+impl RwsLen for str {
+    open spec fn len_spec(&self) -> nat { utf8_len(self@) }
     #[verifier::external_body]
+    fn rws_len(&self) -> usize { self.len() }
+}
+impl RwsLen for String {
+    open spec fn len_spec(&self) -> nat { utf8_len(self@) }
+    #[verifier::external_body]
+    fn rws_len(&self) -> usize { self.len() }
+}
+impl<T> RwsLen for Vec<T> {
+    open spec fn len_spec(&self) -> nat { self@.len() }
+    fn rws_len(&self) -> usize { self.len() }
+}
+impl<T> RwsLen for [T] {
+    open spec fn len_spec(&self) -> nat { self@.len() }
     fn rws_len(&self) -> usize { self.len() }
 }
 
